@@ -18,6 +18,7 @@ package shmipc
 
 import (
 	"bufio"
+	"encoding/json"
 	"fmt"
 	"io"
 	"net"
@@ -635,6 +636,119 @@ func c14RunSevered(id int, name string, k int, writers, readers bool, mt MemMapT
 	return c
 }
 
+// ---- Close releases every pending call at once, before the dispatcher's cleanup runs -------------
+// The dispatcher is held by a gate lambda posted BEFORE Close (lambdas run in order), so the posted
+// cleanup cannot run while the checks are made: whatever is released by then was released by
+// Session.Close itself (safeCloseNotify on every stream, shutdownCh).  Afterwards the cleanup must
+// unmap the queue: the queue's mapping and file / memfd are looked for by name.
+func c14RunSyncClose(id int, mt MemMapType) c14Case {
+	c := c14Case{ID: id, Kind: "sync-close", Name: fmt.Sprintf("close-releases-pending-before-cleanup-mt%d", mt)}
+	cs, ss, err := c14Sessions(id, "y", c14Conf(c14Prefix(id), c14Prefix(id)+"_queue", mt))
+	if err != nil {
+		c.Kind, c.Err = "broken", "harness: "+err.Error()
+		return c
+	}
+	var streams []*Stream
+	var wg sync.WaitGroup
+	results := make(chan error, 8)
+	for i := 0; i < 4; i++ {
+		st, err := cs.OpenStream()
+		if err != nil {
+			c.Kind, c.Err = "broken", "harness: "+err.Error()
+			return c
+		}
+		streams = append(streams, st)
+		wg.Add(1)
+		go func() {
+			defer wg.Done()
+			_, err := st.BufferReader().ReadBytes(1 << 20) // parked until the session dies
+			results <- err
+		}()
+	}
+	acc := make(chan error, 1)
+	go func() { _, err := ss.AcceptStream(); acc <- err }() // parked on the server: released when ss closes
+	time.Sleep(100 * time.Millisecond)
+	qname := fmt.Sprintf("vf14_%d_%d_queue", os.Getpid(), id)
+	maps, _ := os.ReadFile("/proc/self/maps")
+	if strings.Count(string(maps), qname) == 0 {
+		c.Oracle = append(c.Oracle, "harness: the queue mapping is not visible in /proc/self/maps before Close")
+	}
+	gate := make(chan struct{})
+	defaultDispatcher.post(func() { <-gate })
+	t0 := time.Now()
+	cs.Close()
+	released := make(chan struct{})
+	go func() { wg.Wait(); close(released) }()
+	select {
+	case <-released:
+		c.WaitMs = int64(time.Since(t0) / time.Millisecond)
+	case <-time.After(1500 * time.Millisecond):
+		c.Hung = 1
+		c.Oracle = append(c.Oracle, "C14:close-does-not-release-pending-calls")
+	}
+	open := 0
+	for _, st := range streams {
+		select {
+		case <-st.closeNotifyCh:
+		default:
+			open++
+		}
+	}
+	if open > 0 {
+		c.Oracle = append(c.Oracle, "C14:close-does-not-release-pending-calls")
+	}
+	select {
+	case <-cs.CloseChan():
+	default:
+		c.Oracle = append(c.Oracle, "C14:close-does-not-release-pending-calls")
+	}
+	c.Pending = map[string]int{}
+	for len(results) > 0 {
+		e := <-results
+		c.Pending[c14ErrClass(e)]++
+		if e == nil {
+			c.Oracle = append(c.Oracle, "C14:pending-call-does-not-fail-after-session-closed")
+		}
+	}
+	// the cleanup has not run: the queue is still mapped (this is what makes the check above meaningful)
+	cs.shutdownLock.Lock()
+	if cs.queueManager == nil {
+		c.Feat = append(c.Feat, "cleanup-ran-despite-gate")
+	}
+	cs.shutdownLock.Unlock()
+	close(gate)
+	select {
+	case <-acc:
+	case <-time.After(5 * time.Second):
+		c.Oracle = append(c.Oracle, "C14:pending-call-hangs-after-session-closed")
+	}
+	time.Sleep(2600 * time.Millisecond)
+	c.Closed = cs.IsClosed() && ss.IsClosed()
+	if !c.Closed {
+		c.Oracle = append(c.Oracle, "C14:session-not-closed-after-peer-close")
+	}
+	// census of the queue by name: mapping, file, memfd descriptor
+	maps, _ = os.ReadFile("/proc/self/maps")
+	if n := strings.Count(string(maps), qname); n > 0 {
+		c.Residue = append(c.Residue, fmt.Sprintf("queue-maps:%d", n))
+		c.Oracle = append(c.Oracle, "C14:cleanup-leaves-queue-mapped")
+	}
+	if _, err := os.Stat(c14Prefix(id) + "_queue"); err == nil {
+		c.Residue = append(c.Residue, "queue-file")
+		c.Oracle = append(c.Oracle, "C14:cleanup-leaves-queue-mapped")
+	}
+	if n := c14FdLinks(qname); n > 0 {
+		c.Residue = append(c.Residue, fmt.Sprintf("queue-memfd:%d", n))
+		c.Oracle = append(c.Oracle, "C14:cleanup-leaves-queue-mapped")
+	}
+	for _, r := range c14WaitClean(id, nil, time.Second) {
+		c.Residue = append(c.Residue, r)
+		c.Oracle = append(c.Oracle, "C14:closed-sessions-leave-"+strings.SplitN(r, ":", 2)[0])
+	}
+	c.Feat = append(c.Feat, "dispatcher-gated", "parked-readers")
+	return c
+}
+
 // ---- scenarios that may take the process down: run in a child -----------------------------------
 func c14ChildRace() {
 	id := 9000
@@ -760,8 +874,74 @@ func c14RunChild(id int, mode, name string, crashSig, notFailSig string) c14Case
 	return c
 }
 
+// Scenarios in which user goroutines write while the session dies expose the process to the known
+// unmap-vs-in-flight-user crash: they run in a process of their own, so that a crash is attributed to
+// that defect instead of taking the whole harness down.
+func c14Isolated(id int, kind, name string, k int, writers, readers bool, mt MemMapType) c14Case {
+	tmp := filepath.Join(c14Scratch, fmt.Sprintf("iso%d.jsonl", id))
+	os.Remove(tmp)
+	cmd := exec.Command(os.Args[0], "-test.run", "^TestVerif_C14$")
+	cmd.Env = append(os.Environ(), "VERIF_C14_CHILD=scenario", "VERIF_OUT="+tmp,
+		fmt.Sprintf("VERIF_C14_SPEC=%s|%s|%d|%t|%t|%d|%d", kind, name, k, writers, readers, mt, id))
+	outb, err := cmd.CombinedOutput()
+	defer os.Remove(tmp)
+	if b, rerr := os.ReadFile(tmp); rerr == nil && err == nil {
+		var c c14Case
+		if json.Unmarshal([]byte(strings.TrimSpace(string(b))), &c) == nil && c.Name != "" {
+			c.Feat = append(c.Feat, "own-process")
+			return c
+		}
+	}
+	out := string(outb)
+	c := c14Case{ID: id, Kind: kind, Name: name, Feat: []string{"own-process"}}
+	if len(out) > 1500 {
+		out = out[:700] + " ... " + out[len(out)-700:]
+	}
+	c.Child = out
+	if cmd.Process != nil { // what the crashed process left in /dev/shm is not the survivor's residue
+		if m, _ := filepath.Glob(fmt.Sprintf("/dev/shm/vf14_%d_*", cmd.Process.Pid)); len(m) > 0 {
+			for _, f := range m {
+				os.Remove(f)
+			}
+		}
+	}
+	if strings.Contains(out, "SIGSEGV") || strings.Contains(out, "unexpected fault address") || strings.Contains(out, "nil pointer dereference") {
+		c.Feat = append(c.Feat, "child-crashed-sigsegv")
+		c.Oracle = append(c.Oracle, "C14:unmap-while-user-thread-inside-flush")
+	} else {
+		c.Kind, c.Err = "broken", "harness: isolated scenario produced no result"
+	}
+	return c
+}
+
+func c14ChildScenario(t *testing.T) {
+	var kind, name string
+	var k, mt, id int
+	var writers, readers bool
+	f := strings.Split(os.Getenv("VERIF_C14_SPEC"), "|")
+	if len(f) != 7 {
+		t.Fatal("bad spec")
+	}
+	kind, name = f[0], f[1]
+	fmt.Sscan(f[2], &k)
+	writers, readers = f[3] == "true", f[4] == "true"
+	fmt.Sscan(f[5], &mt)
+	fmt.Sscan(f[6], &id)
+	c14Scratch = os.Getenv("VERIF_SCRATCH")
+	out := vopenOut(t)
+	defer out.close()
+	if kind == "killed" {
+		out.emit(c14RunKilled(id, name, k, writers, readers, MemMapType(mt)))
+	} else {
+		out.emit(c14RunSevered(id, name, k, writers, readers, MemMapType(mt)))
+	}
+}
+
 func TestVerif_C14(t *testing.T) {
 	switch os.Getenv("VERIF_C14_CHILD") {
+	case "scenario":
+		c14ChildScenario(t)
+		return
 	case "server":
 		c14ChildServer()
 		return
@@ -807,18 +987,20 @@ func TestVerif_C14(t *testing.T) {
 			run(func() c14Case {
 				return c14RunKilled(i2, fmt.Sprintf("killed-idle-after-%d-roundtrips-mt%d", k, mt), k, false, false, mt)
 			})
-			run(func() c14Case { return c14RunKilled(i3, fmt.Sprintf("killed-mid-flush-mt%d", mt), 1, true, false, mt) })
 			run(func() c14Case {
-				return c14RunKilled(i4, fmt.Sprintf("killed-mid-read-and-flush-mt%d", mt), 0, true, true, mt)
+				return c14Isolated(i3, "killed", fmt.Sprintf("killed-mid-flush-mt%d", mt), 1, true, false, mt)
+			})
+			run(func() c14Case {
+				return c14Isolated(i4, "killed", fmt.Sprintf("killed-mid-read-and-flush-mt%d", mt), 0, true, true, mt)
 			})
 			run(func() c14Case {
 				return c14RunSevered(i5, fmt.Sprintf("severed-idle-after-%d-roundtrips-mt%d", k, mt), k, false, false, mt)
 			})
 			run(func() c14Case {
-				return c14RunSevered(i6, fmt.Sprintf("severed-mid-flush-mt%d", mt), 1, true, false, mt)
+				return c14Isolated(i6, "severed", fmt.Sprintf("severed-mid-flush-mt%d", mt), 1, true, false, mt)
 			})
 			run(func() c14Case {
-				return c14RunSevered(i7, fmt.Sprintf("severed-mid-read-and-flush-mt%d", mt), 0, true, true, mt)
+				return c14Isolated(i7, "severed", fmt.Sprintf("severed-mid-read-and-flush-mt%d", mt), 0, true, true, mt)
 			})
 		}
 		ir, il := next(), next()
@@ -829,5 +1011,8 @@ func TestVerif_C14(t *testing.T) {
 			return c14RunChild(il, "later", "write-after-cleanup", "C14:write-after-cleanup-touches-unmapped-memory", "C14:later-call-succeeds-on-closed-session")
 		})
 		wg.Wait()
+		// alone: the gate holds the process-wide dispatcher for a moment
+		emit(c14RunSyncClose(next(), MemMapTypeDevShmFile))
+		emit(c14RunSyncClose(next(), MemMapTypeMemFd))
 	}
 }
